@@ -1833,7 +1833,7 @@ Proof.
   destruct d as [n l c|n b vals attrs c|s]; cbn [wf_decl decl_not_free repo_decl_tlines decl_tlines]; intros Hwf Hnf.
   - reflexivity.
   - apply andb_true_iff in Hwf as [H _]. apply andb_true_iff in H as [_ Ha].
-    rewrite (format_attributes_eq CEnum attrs Ha Hnf). f_equal. f_equal. f_equal. apply flat_map_ext_in. intros v _. apply repo_value_eq.
+    rewrite (format_attributes_eq CEnum attrs Ha Hnf). reflexivity.
   - apply andb_true_iff in Hwf as [H _]. apply andb_true_iff in H as [H Hf]. apply andb_true_iff in H as [_ Ha].
     apply andb_true_iff in Hnf as [Hna Hnf]. rewrite (format_attributes_eq CStruct _ Ha Hna). f_equal. f_equal. f_equal.
     apply flat_map_ext_in. intros f Hin. assert (Hff : forallb (wf_field T) (s_fields s) = true) by (destruct (s_fields s); [discriminate|exact Hf]).
